@@ -14,8 +14,9 @@ stands for) and an *operational* semantics that follows the C++ of
 * user callables (`Fn`) are total functions that may throw;
 * `PIKA_UNREACHABLE` / `std::terminate` is the machine flag `aborted`;
 * the connected (terminal) receiver may destroy the whole operation state inside its completion
-  function (`released`); every later access of an operation-state member by adaptor code
-  (`touch`) raises `uaf`.
+  function (`released`), and `drop_operation_state` destroys the operation states of its
+  predecessor inside the predecessor's completion call (`freed`); every later access of a member
+  of a destroyed operation state by adaptor code (`touch a`) raises `uaf`.
 
 All leaves complete inline in `start` here; the race between the predecessor's completion and
 consumers of the shared-state adaptors is the subject of `Model/Shared.lean` (stage 2).
@@ -54,6 +55,8 @@ def Fn.apply : Fn → List Int → Except Int (List Int)
     `set_value()`, `set_error(code)` or `set_stopped()`. -/
 inductive Sch where
   | v | e (c : Int) | s
+  | p     -- pika's `thread_pool_scheduler` on a running pool: completes with `set_value()` on a
+          -- worker thread (placement is not part of the completion signal)
   deriving DecidableEq, Repr
 
 inductive Term where
@@ -73,6 +76,10 @@ inductive Term where
   | sp (p : Term)                         -- split (one consumer)
   | es (p : Term)                         -- ensure_started
   | st (i : Nat) (p : Term)               -- split_tuple of (v, reverse v), element i
+  | bulk (n : Nat) (f : Fn) (p : Term)    -- bulk (generic fallback): `f` on `(values, i)`, i < n
+  | rs (p : Term)                         -- require_started
+  | dos (p : Term)                        -- drop_operation_state
+  | sd (sc : Sch)                         -- schedule(sc) (| then(-> empty vector))
   deriving Repr
 
 /-! ## Denotation -/
@@ -98,6 +105,28 @@ def applySch (sc : Sch) : Sig → Sig
     | .v => .value vs
     | .e c => .error c
     | .s => .stopped
+    | .p => .value vs
+  | o => o
+
+/-- `bulk(n, f)` (generic fallback `bulk_receiver::set_value`): `f(i, values...)` for
+    `i = 0 … n-1` on the values by reference — the harness' callable replaces the values by
+    `f (values ++ [i])` — stopping at the first exception. -/
+def bulkRun (f : Fn) : Nat → Nat → List Int → Except Int (List Int)
+  | _, 0, vs => .ok vs
+  | i, n + 1, vs => match f.apply (vs ++ [(i : Int)]) with
+    | .ok r => bulkRun f (i + 1) n r
+    | .error e => .error e
+
+/-- the rest of a bulk loop that has reached index `i` with `n` iterations to go -/
+def applyBulkFrom (i n : Nat) (f : Fn) (vs : List Int) : Sig :=
+  match bulkRun f i n vs with
+  | .ok r => .value r
+  | .error e => .error e
+
+def applyBulk (n : Nat) (f : Fn) : Sig → Sig
+  | .value vs => match bulkRun f 0 n vs with
+    | .ok r => .value r
+    | .error e => .error e
   | o => o
 
 def pick (i : Nat) (vs : List Int) : List Int := if i = 0 then vs else vs.reverse
@@ -134,6 +163,10 @@ def denote : Term → List Int → Sig
   | .st i p, env => match denote p env with
     | .value vs => .value (pick i vs)
     | o => o
+  | .bulk n f p, env => applyBulk n f (denote p env)
+  | .rs p, env => denote p env
+  | .dos p, env => denote p env
+  | .sd sc, _ => applySch sc (.value [])
 def denotes : List Term → List Int → List Sig
   | [], _ => []
   | c :: cs, env => denote c env :: denotes cs env
@@ -178,16 +211,24 @@ structure M where
   next : Nat
   log : List Sig          -- calls received by the terminal receiver
   released : Bool         -- the terminal receiver has destroyed the operation state
-  uaf : Bool              -- adaptor code touched an operation state after that
+  freed : Nat → Bool      -- operation states destroyed by `drop_operation_state`
+  uaf : Bool              -- adaptor code touched an operation state after its destruction
   aborted : Bool          -- PIKA_UNREACHABLE / std::terminate
 
 def M.init : M :=
-  { cells := fun _ => {}, next := 0, log := [], released := false, uaf := false, aborted := false }
+  { cells := fun _ => {}, next := 0, log := [], released := false, freed := fun _ => false,
+    uaf := false, aborted := false }
 
 /-- A receiver: what a call of one of its three completion functions does to the machine. -/
 abbrev Rc := Sig → M → M
 
-def touch (s : M) : M := if s.released then { s with uaf := true } else s
+/-- adaptor code accesses a member of the operation state at `a` -/
+def touch (a : Nat) (s : M) : M := if s.released || s.freed a then { s with uaf := true } else s
+
+/-- `drop_operation_state`: the operation states `lo ≤ x < hi` (everything the predecessor
+    allocated) are destroyed. -/
+def freeRange (lo hi : Nat) (s : M) : M :=
+  { s with freed := fun x => (decide (lo ≤ x) && decide (x < hi)) || s.freed x }
 
 def alloc (c : Cell) (s : M) : M := { s with cells := upd s.cells s.next c, next := s.next + 1 }
 
@@ -237,7 +278,7 @@ def waFinish (sendsDone : Bool) (w : Cell) : Option Sig :=
 
 /-- `when_all_receiver` / `when_all_vector_receiver` number `i` of the operation state at `a`. -/
 def waR (sendsDone : Bool) (a i : Nat) (k : Rc) : Rc := fun sig s =>
-  let s := touch s
+  let s := touch a s
   let w := waStep i (s.cells a) sig
   let w := { w with remaining := w.remaining - 1 }
   let s := setCell a w s
@@ -246,7 +287,7 @@ def waR (sendsDone : Bool) (a i : Nat) (k : Rc) : Rc := fun sig s =>
 /-- `split_receiver` etc.: store the completion, set `predecessor_done`; no continuation has
     been added yet in the sequential setting. -/
 def storeR (storesStopped : Bool) (a : Nat) : Rc := fun sig s =>
-  let s := touch s
+  let s := touch a s
   let c := s.cells a
   let v := match sig with
     | .value vs => Stored.value vs
@@ -257,7 +298,7 @@ def storeR (storesStopped : Bool) (a : Nat) : Rc := fun sig s =>
 /-- `add_continuation` when `predecessor_done` is already set: visit the variant. -/
 def visit (a : Nat) (sel : List Int → List Int) (k : Rc) (s : M) : M :=
   if s.aborted then s else
-  let s := touch s
+  let s := touch a s
   let c := s.cells a
   if c.done then
     match c.stored with
@@ -271,14 +312,31 @@ def visit (a : Nat) (sel : List Int → List Int) (k : Rc) (s : M) : M :=
 def schedR (sc : Sch) (a : Nat) (k : Rc) : Rc := fun sig s =>
   match sig with
   | .value vs =>
-    let s := setCell a { (touch s).cells a with stored := .value vs } (touch s)
+    let s := setCell a { (touch a s).cells a with stored := .value vs } (touch a s)
     match sc with
     | .v => match (s.cells a).stored with
-      | .value ws => k (.value ws) (touch s)
+      | .value ws => k (.value ws) (touch a s)
       | _ => abort s
-    | .e c => k (.error c) (touch s)
-    | .s => k .stopped (touch s)
-  | o => k o (touch s)
+    | .e c => k (.error c) (touch a s)
+    | .s => k .stopped (touch a s)
+    | .p => match (s.cells a).stored with
+      | .value ws => k (.value ws) (touch a s)
+      | _ => abort s
+  | o => k o (touch a s)
+
+/-- `bulk_receiver`: forwards error/stopped; on a value runs the loop inside try/catch. -/
+def bulkR (n : Nat) (f : Fn) (k : Rc) : Rc := fun sig s => k (applyBulk n f sig) s
+
+/-- `require_started_receiver`: reaches the downstream receiver through its own operation state
+    (at `a`), forwards the signal unchanged. -/
+def fwdR (a : Nat) (k : Rc) : Rc := fun sig s => k sig (touch a s)
+
+/-- `drop_op_state_receiver`: (copies the values,) resets the predecessor's operation state —
+    every operation state allocated after its own, up to now — and forwards the signal through
+    its own operation state (at `a`). -/
+def dropOpR (a : Nat) (k : Rc) : Rc := fun sig s =>
+  let s := touch a s
+  k sig (freeRange (a + 1) s.next s)
 
 mutual
 /-- `connect` + `start` of the operation for term `t` with receiver `k`. -/
@@ -312,12 +370,12 @@ def start (cfg : Cfg) (t : Term) (env : List Int) (k : Rc) (s : M) : M :=
     let n := cs.length + 1
     let a := s.next
     let s := alloc { remaining := n, slots := List.replicate n none } s
-    startAll cfg cs env (fun i => waR true a i k) 1 (start cfg c env (waR true a 0 k) (touch s))
+    startAll cfg cs env (fun i => waR true a i k) a 1 (start cfg c env (waR true a 0 k) (touch a s))
   | .wv cs =>
     if cs.isEmpty then k (.value []) s
     else
       let n := cs.length
-      startAll cfg cs env (fun i => waR cfg.wvSendsDone s.next i k) 0
+      startAll cfg cs env (fun i => waR cfg.wvSendsDone s.next i k) s.next 0
         (alloc { remaining := n, slots := List.replicate n none } s)
   | .sp p =>
     visit s.next (fun v => v) k (start cfg p env (storeR cfg.splitStoresStopped s.next) (alloc {} s))
@@ -325,12 +383,17 @@ def start (cfg : Cfg) (t : Term) (env : List Int) (k : Rc) (s : M) : M :=
     visit s.next (fun v => v) k (start cfg p env (storeR true s.next) (alloc {} s))
   | .st i p =>
     visit s.next (pick i) k (start cfg p env (storeR cfg.tupleStoresStopped s.next) (alloc {} s))
+  | .bulk n f p => start cfg p env (bulkR n f k) s
+  | .rs p => start cfg p env (fwdR s.next k) (alloc { done := true } s)     -- `started = true`
+  | .dos p => start cfg p env (dropOpR s.next k) (alloc {} s)
+  | .sd sc => k (applySch sc (.value [])) s
 termination_by structural t
-/-- The loop of `start()` over the predecessors' operation states. -/
-def startAll (cfg : Cfg) (cs : List Term) (env : List Int) (r : Nat → Rc) (i : Nat) (s : M) : M :=
+/-- The loop of `start()` over the predecessors' operation states (members of the operation
+    state at `a`). -/
+def startAll (cfg : Cfg) (cs : List Term) (env : List Int) (r : Nat → Rc) (a i : Nat) (s : M) : M :=
   match cs with
   | [] => s
-  | c :: cs' => startAll cfg cs' env r (i + 1) (start cfg c env (r i) (touch s))
+  | c :: cs' => startAll cfg cs' env r a (i + 1) (start cfg c env (r i) (touch a s))
 termination_by structural cs
 end
 
